@@ -1218,9 +1218,22 @@ func ruleRegistry(r *Run) {
 			r.at(&path)
 			held := r.locksAlong(&path, lockset{})
 			ops := r.mapOps(fn, &path)
+			iR, iC, iD := idxOfCall(&path, reuse, 0), idxOfCall(&path, closeF, 0), idxOfCall(&path, gaugeDec, 0)
+			// Remove acts only on the session that is registered under its id (idempotent: a second
+			// Remove of the same session, or of a stale session whose id was reused, changes nothing)
+			g := r.guardMap(&path)
+			slot := "recv.sessions[" + key("param:#1.ID") + "]"
+			same := g["eq:"+slot+"~param:#1"] == "equal" || g["eq:param:#1~"+slot] == "equal"
+			isRegistered := g["maplookup:"+slot] == "hit" && same
+			if len(ops) == 0 && iR < 0 && iC < 0 && iD < 0 {
+				r.CheckT("E7", fn.Name+":noop-iff-unregistered", !isRegistered, fn.Body.Pos(), &path,
+					"Remove does nothing only when the session handed in is not the one registered under its id (%s)", r.pathSig(&path))
+				continue
+			}
+			r.CheckT("E7", fn.Name+":idempotent", isRegistered, fn.Body.Pos(), &path,
+				"Remove unregisters, closes, releases the id and lowers the gauge only for the session currently registered under its id; two departures that both saw the session empty must not do it twice (%s)", r.pathSig(&path))
 			okD := len(ops) == 1 && ops[0].Kind == "delete" && ops[0].Map == "recv.sessions" && ops[0].Key == key("param:#1.ID")
 			r.CheckT("E7", fn.Name+":delete", okD, fn.Body.Pos(), &path, "Remove unregisters exactly the session's own global id")
-			iR, iC, iD := idxOfCall(&path, reuse, 0), idxOfCall(&path, closeF, 0), idxOfCall(&path, gaugeDec, 0)
 			all := okD && iR >= 0 && iC >= 0 && iD >= 0
 			if all {
 				for _, i := range []int{ops[0].Idx, iR, iC, iD} {
